@@ -1,0 +1,10 @@
+//go:build verif
+
+package binaryheap
+
+import "github.com/emirpasic/gods/v2/lists/arraylist"
+
+// VerifInner returns the backing array list.
+func (heap *Heap[T]) VerifInner() *arraylist.List[T] {
+	return heap.list
+}
